@@ -115,24 +115,38 @@ class Ctx:
         tag = "" if REPO == "/repo" else "-" + hashlib.sha1(REPO.encode()).hexdigest()[:8]
         bindir = os.path.join(OUT, "bin" + tag)
         os.makedirs(bindir, exist_ok=True)
+        # short critical section: (re)write the module file only when it changes; the build itself
+        # runs under a per-driver lock only (cmd/go locks go.mod/go.sum and its cache itself)
         lock = open(os.path.join(bindir, ".lock"), "w")
         fcntl.flock(lock, fcntl.LOCK_EX)
         try:
             modfile = os.path.join(bindir, "go.mod")
             gomod = open(os.path.join(HARNESS, "go.mod")).read().replace("=> /repo", "=> " + REPO)
-            with open(modfile, "w") as f:
-                f.write(gomod)
-            shutil.copyfile(os.path.join(REPO, "go.sum"), os.path.join(bindir, "go.sum"))
-            outp = os.path.join(bindir, driver + ("-race" if race else ""))
+            if not os.path.exists(modfile) or open(modfile).read() != gomod:
+                with open(modfile, "w") as f:
+                    f.write(gomod)
+            want = open(os.path.join(REPO, "go.sum")).read()
+            sump = os.path.join(bindir, "go.sum")
+            have = open(sump).read() if os.path.exists(sump) else ""
+            if not set(want.splitlines()) <= set(have.splitlines()):
+                with open(sump, "w") as f:
+                    f.write(want)
+        finally:
+            fcntl.flock(lock, fcntl.LOCK_UN)
+            lock.close()
+        outp = os.path.join(bindir, driver + ("-race" if race else ""))
+        dlock = open(outp + ".lock", "w")
+        fcntl.flock(dlock, fcntl.LOCK_EX)
+        try:
             cmd = ["go", "build", "-modfile=" + modfile, "-tags", "verif"] + \
                   (["-race"] if race else []) + ["-o", outp, "./cmd/" + driver]
-            p = sh(cmd, cwd=HARNESS, env=goenv(), timeout=1500, check=False)
+            p = sh(cmd, cwd=HARNESS, env=goenv(), timeout=2400, check=False)
             if p.returncode != 0:
                 raise Infra("build of driver %s failed:\n%s" % (driver, p.stdout[-6000:]))
             return outp
         finally:
-            fcntl.flock(lock, fcntl.LOCK_UN)
-            lock.close()
+            fcntl.flock(dlock, fcntl.LOCK_UN)
+            dlock.close()
 
     def run_driver(self, binpath, args, timeout=900, env_extra=None, check=True):
         env = dict(os.environ)
